@@ -97,9 +97,22 @@ def sMaxAge : Str := ['m', 'a', 'x', '-', 'a', 'g', 'e']
 def sNoCache : Str := ['n', 'o', '-', 'c', 'a', 'c', 'h', 'e']
 def sNoStore : Str := ['n', 'o', '-', 's', 't', 'o', 'r', 'e']
 
-/-- `cherrypy.url(qs=request.query_string)` up to the constant prefix `base + script_name`:
-    `path_info + ('?' + qs if qs else '')` (path normalisation is not modelled). -/
-def uriKey (path qs : Str) : Str := if qs = [] then path else path ++ '?' :: qs
+/-- `.replace('%', '%25').replace('?', '%3F')` -/
+def escPath : Str → Str
+  | [] => []
+  | c :: cs =>
+    if c = '%' then '%' :: '2' :: '5' :: escPath cs
+    else if c = '?' then '%' :: '3' :: 'F' :: escPath cs
+    else c :: escPath cs
+
+/-- the store key of a resource, up to the constant prefix `base + script_name` (path normalisation is not
+    modelled).  `esc = false`: `cherrypy.url(qs=request.query_string)` = `path_info + ('?' + qs if qs else '')`
+    (finding C15-N1: not injective); `esc = true`: the repaired key, `%` and `?` of the path percent-encoded. -/
+def uriKeyWith (esc : Bool) (path qs : Str) : Str :=
+  if qs = [] then (if esc then escPath path else path) else (if esc then escPath path else path) ++ '?' :: qs
+
+/-- the key the live module builds (probed on every run: `Gen.C15.keyEscapesPath`) -/
+def uriKey (path qs : Str) : Str := uriKeyWith Gen.C15.keyEscapesPath path qs
 
 /-! ### data -/
 
